@@ -56,3 +56,18 @@ Definition start (r : rawcfg) (e : envc) : outcome :=
 (** Effective length of a key the instance runs with. *)
 Definition effective_len (configured : N) (k : keysrc) : N :=
   match k with Configured => configured | Fresh => CONFIG_KEY_LEN end.
+
+(** What a started instance serves ([main()]'s route wiring): the OpenID routes
+    (/connect, /callback), the challenges the gateway endpoint answers a request
+    without credentials with, and whether the endpoint is reachable without HTTP
+    authentication at all (the OpenID-only configuration, where the access cookie
+    inside the tunnel is the authentication). *)
+Record served := {
+  sv_openid_routes : bool; sv_basic : bool; sv_ntlm : bool; sv_negotiate : bool; sv_open_endpoint : bool }.
+
+Definition serves (r : rawcfg) : served :=
+  {| sv_openid_routes := r_openid r;
+     sv_basic := r_local r;
+     sv_ntlm := r_ntlm r;
+     sv_negotiate := r_ntlm r || r_kerberos r;
+     sv_open_endpoint := r_openid r && negb (r_kerberos r) && negb (r_local r) && negb (r_ntlm r) |}.
